@@ -90,6 +90,54 @@ Theorem C16_event_time_preserved_es : forall x attrs index dec now0 tsNow clock,
 Proof. exact es_time_all. Qed.
 Print Assumptions C16_event_time_preserved_es.
 
+(* A numeric timestamp of ANY JSON spelling -- decimal fraction (1714352490.251), exponent form
+   (1.714352490251e12), integer literal beyond int64 -- is read through the float fall-back of
+   ExtractTimeStamp: with t = uint64(nearest float64), the stored time is the instant of t's unit
+   class (seconds below 99999999999, else milliseconds); it is never the arrival time. *)
+Theorem C16_event_time_numeric_any_spelling : forall x m ex attrs index dec now0 tsNow clock,
+  plain_index index -> 0 < dec_u64 m ex -> dec_u64 m ex < 18446744073709551616 ->
+  final_ts x (es_build (WDec m ex) attrs) index dec now0 tsNow clock =
+  instant_ms (num_unit_class (dec_u64 m ex)) (dec_u64 m ex).
+Proof. exact es_time_dec. Qed.
+Print Assumptions C16_event_time_numeric_any_spelling.
+
+Theorem C16_event_time_integer_beyond_int64 : forall x z attrs index dec now0 tsNow clock,
+  plain_index index -> in_int64 z = false -> 0 < dec_u64 z 0 -> dec_u64 z 0 < 18446744073709551616 ->
+  final_ts x (es_build (WNum z) attrs) index dec now0 tsNow clock =
+  instant_ms (num_unit_class (dec_u64 z 0)) (dec_u64 z 0).
+Proof. exact es_time_bigint. Qed.
+Print Assumptions C16_event_time_integer_beyond_int64.
+
+(* what the float reader returns for several spellings (seconds with a fraction lose it) *)
+Theorem C16_float_reader_values :
+  dec_u64 1714352490251 (-3) = 1714352490 /\
+  dec_u64 1714352490251 0 = 1714352490251 /\
+  dec_u64 17143524902515 (-1) = 1714352490251 /\
+  dec_u64 1714352490 0 = 1714352490 /\
+  dec_u64 17143524909999999999 (-10) = 1714352491 /\
+  dec_u64 9223372036854775808 0 = 9223372036854775808 /\
+  dec_u64 9223372036854775809 0 = 9223372036854775808 /\
+  dec_u64 9007199254740993 0 = 9007199254740992.
+Proof. exact dec_u64_values. Qed.
+Print Assumptions C16_float_reader_values.
+
+(* Full statement (FALSE for the code): the stored time is [dec_true_ms m ex], the instant the
+   number denotes (seconds WITH their fraction, or milliseconds).  Guarded: the reader returns
+   the exact integer part and the number is milliseconds or has no sub-second part. *)
+Theorem C16_event_time_fraction_guarded : forall m ex,
+  dec_u64 m ex = dec_floor m ex ->
+  (is_time_in_milli (dec_floor m ex) = true \/ dec_floor m (ex + 3) = dec_floor m ex * 1000) ->
+  instant_ms (num_unit_class (dec_u64 m ex)) (dec_u64 m ex) = dec_true_ms m ex.
+Proof. exact es_time_dec_exact_guarded. Qed.
+Print Assumptions C16_event_time_fraction_guarded.
+
+(* 1714352490.251 denotes ...490251 ms and is stored as ...490000 ms *)
+Theorem C16_event_time_fraction_refuted : exists m ex,
+  dec_true_ms m ex = 1714352490251 /\
+  instant_ms (num_unit_class (dec_u64 m ex)) (dec_u64 m ex) = 1714352490000.
+Proof. exact es_fractional_seconds_refuted. Qed.
+Print Assumptions C16_event_time_fraction_refuted.
+
 Theorem C16_fields_preserved_es : forall t attrs k v,
   In (k, v) attrs -> k <> k_timestamp -> In (k, v) (stored_fields (es_build t attrs)).
 Proof. exact es_field_kept. Qed.
